@@ -29,7 +29,11 @@ const smallLimit = 8 // WithMemoryLimitPages of the "small" semantic base; the o
 
 // ---------------------------------------------------------------- lattice
 
-var cacheModes = []string{"none", "mem", "dirCold", "dirWarm", "shared"}
+// dirWarmX: like dirWarm, but the runtime that FILLS the directory has the four toggles that are not part of the
+// module identity / cache key (capmax, alloc, nodebug, custom) flipped; the directory is then read through a
+// fresh cache object by a runtime with the point's settings, and only that second run is compared. (Listener
+// presence and close-on-context-done are part of the key: flipping them would be a cold compile.)
+var cacheModes = []string{"none", "mem", "dirCold", "dirWarm", "shared", "dirWarmX"}
 
 type point struct {
 	Cache string `json:"cache"`
@@ -49,7 +53,7 @@ func (pt point) settings(engine string, limit uint32) settings {
 	return s
 }
 
-// lattice is the list of points of the tier (set by initLattice): the full 5 x 2^6 product with the listener
+// lattice is the list of points of the tier (set by initLattice): the full 6 x 2^6 product with the listener
 // dimension {no factory, listener for every function}, plus the listener values {nil for every function,
 // every other function} x cache {none, dirCold, dirWarm, shared} x the other five toggles (thorough: all 32
 // combinations; quick: none, each one alone, all five).
@@ -64,7 +68,7 @@ func initLattice(thorough bool) {
 	}
 	for _, lm := range []string{"nil", "subset"} {
 		for _, c := range cacheModes {
-			if c == "mem" {
+			if c == "mem" || c == "dirWarmX" {
 				continue
 			}
 			for b := 0; b < 64; b++ {
@@ -91,7 +95,7 @@ func cacheLE(a, b string) bool {
 	case "mem":
 		return b != "none"
 	case "dirCold":
-		return b == "dirWarm"
+		return b == "dirWarm" || b == "dirWarmX"
 	}
 	return false
 }
@@ -201,6 +205,32 @@ func (e *env) runPoint(p *program, s settings, cache string) []*rtRun {
 			}
 		}
 		return []*rtRun{a, b}
+	case "dirWarmX":
+		dir := e.mkdir()
+		defer os.RemoveAll(dir)
+		s1 := s
+		s1.CapMax, s1.Alloc, s1.NoDebug, s1.Custom = !s.CapMax, !s.Alloc, !s.NoDebug, !s.Custom
+		if hugeCapacity(p, s1) {
+			s1.CapMax = false
+		}
+		c1 := dirCache(dir)
+		a := newRT(p, s1, c1)
+		a.compile(p)
+		a.run(p)
+		a.dispose()
+		c1.Close(ctx)
+		before := countFiles(dir)
+		c2 := dirCache(dir)
+		defer c2.Close(ctx)
+		b := one(c2)
+		if s.Engine == "compiler" && a.code != nil && before > 0 {
+			if countFiles(dir) == before {
+				e.inc("dircacheX:entry-of-other-settings-reused")
+			} else {
+				e.inc("dircacheX:second-runtime-wrote-again")
+			}
+		}
+		return []*rtRun{b}
 	case "shared":
 		c := wazero.NewCompilationCache()
 		defer c.Close(ctx)
